@@ -86,9 +86,9 @@ func mutants(root *gen.Node, visit func(*gen.Node)) {
 
 func includeGraphs(emit func(Case)) {
 	// modules main, a, b; each file includes any subset of {a, b, itself, missing},
-	// at root level or inside a subroutine (one placement per graph)
+	// at root level, inside a subroutine, or inside an if block of a subroutine / of a statement module (one placement per graph)
 	targets := func(self string) []string { return []string{"a", "b", self, "missing"} }
-	file := func(self string, mask int, inSub bool, tag string) string {
+	file := func(self string, mask int, place int, tag string) string {
 		var incs []string
 		for i, t := range targets(self) {
 			if mask&(1<<i) != 0 {
@@ -96,12 +96,16 @@ func includeGraphs(emit func(Case)) {
 			}
 		}
 		var b strings.Builder
-		if inSub {
+		if place > 0 {
+			body := strings.Join(incs, "\n  ")
+			if place == 2 && len(incs) > 0 {
+				body = "if (req.http.N) {\n    " + strings.Join(incs, "\n    ") + "\n  } else {\n    set req.http.E = \"1\";\n  }"
+			}
 			if self == "main" {
-				fmt.Fprintf(&b, "sub vcl_recv {\n  #FASTLY recv\n  %s\n  set req.http.%s = \"1\";\n}\n", strings.Join(incs, "\n  "), tag)
+				fmt.Fprintf(&b, "sub vcl_recv {\n  #FASTLY recv\n  %s\n  set req.http.%s = \"1\";\n}\n", body, tag)
 			} else {
 				// a module included inside a subroutine consists of statements
-				fmt.Fprintf(&b, "%s\nset req.http.%s = \"1\";\n", strings.Join(incs, "\n"), tag)
+				fmt.Fprintf(&b, "%s\nset req.http.%s = \"1\";\n", body, tag)
 			}
 		} else {
 			fmt.Fprintf(&b, "%s\n", strings.Join(incs, "\n"))
@@ -113,18 +117,18 @@ func includeGraphs(emit func(Case)) {
 		}
 		return b.String()
 	}
-	for _, inSub := range []bool{false, true} {
+	for place := 0; place <= 2; place++ {
 		for mm := 0; mm < 16; mm++ {
 			for ma := 0; ma < 16; ma++ {
 				for mb := 0; mb < 16; mb++ {
 					mods := map[string]string{
-						"a": file("a", ma, inSub, "A"),
-						"b": file("b", mb, inSub, "B"),
+						"a": file("a", ma, place, "A"),
+						"b": file("b", mb, place, "B"),
 					}
 					// "main" including itself resolves the module name "main"
-					main := file("main", mm, inSub, "M")
+					main := file("main", mm, place, "M")
 					mods["main"] = main
-					emit(Case{Kind: "total", Main: main, Modules: mods, Label: fmt.Sprintf("include-graph sub=%v main=%04b a=%04b b=%04b", inSub, mm, ma, mb)})
+					emit(Case{Kind: "total", Main: main, Modules: mods, Label: fmt.Sprintf("include-graph place=%d main=%04b a=%04b b=%04b", place, mm, ma, mb)})
 				}
 			}
 		}
@@ -213,6 +217,14 @@ var permutePrograms = [][]string{
 	{"sub a {\n  include \"pm1\";\n  return(lookup);\n}", "sub b {\n  include \"pm2\";\n  return(pass);\n}", "sub c {\n  set req.http.C = \"1\";\n  return(lookup);\n}", "sub vcl_recv {\n  #FASTLY recv\n  call a;\n  call b;\n  call c;\n  return(lookup);\n}"},
 	{"sub vcl_recv {\n  #FASTLY recv\n  include \"pm1\";\n  return(lookup);\n}", "sub vcl_deliver {\n  #FASTLY deliver\n  include \"pm2\";\n  return(deliver);\n}", "sub vcl_fetch {\n  #FASTLY fetch\n  return(deliver);\n}", "sub helper {\n  include \"pm1\";\n}"},
 	{"sub a {\n  set req.http.A = \"1\";\n  return(lookup);\n}", "sub b {\n  set req.http.B = undefined.b;\n}", "sub fc BOOL {\n  return true;\n}", "sub vcl_recv {\n  #FASTLY recv\n  call a;\n  call b;\n  if (fc()) { esi; }\n  return(lookup);\n}"},
+}
+
+// (appended below) capture-group state: a functional subroutine reading re.group.N next to a subroutine that matches with groups
+func init() {
+	permutePrograms = append(permutePrograms,
+		[]string{"sub vcl_recv {\n  #FASTLY recv\n  if (req.url ~ \"^/(foo)/(bar)\") {\n    set req.http.M = \"1\";\n  }\n  set req.http.P = pick();\n}", "sub pick STRING {\n  return re.group.2;\n}", "sub vcl_fetch {\n  #FASTLY fetch\n  set beresp.ttl = 1s;\n}", "sub own BOOL {\n  if (req.url ~ \"(a)\") {\n    return true;\n  }\n  return false;\n}"},
+		[]string{"sub a {\n  if (req.http.A ~ \"(x)(y)(z)\") {\n    set req.http.G = re.group.3;\n  }\n}", "sub fb STRING {\n  return re.group.1 re.group.3;\n}", "sub c {\n  set req.http.C = re.group.1;\n}", "sub vcl_recv {\n  #FASTLY recv\n  call a;\n  call c;\n  set req.http.F = fb();\n}"},
+	)
 }
 
 // modules the permuted programs may include from inside subroutine bodies
@@ -521,7 +533,7 @@ func init() {
 	engine.Register(engine.Spec[Case]{
 		ID:    "C11",
 		Level: "exploration",
-		Rule: "(1) totality under a fuel budget: every statement/declaration derivation within 2 (quick) / 3 (thorough) deviations, every single-site replacement of an expression atom by each of 10 atom kinds (ill-typed mutants) in every derivation within 1 deviation, special programs, functional subroutines with 0-2 parameters called with 0-3 arguments, and all 8192 include graphs over modules {main, a, b} where each file includes any subset of {a, b, itself, missing} at root level or inside a subroutine; each linted twice (repeat determinism). (2) determinism over Go's randomised map iteration: the instrumented build routes every range-over-map loop of linter and linter/context (found by go/types at build time) through a seam; for 20 programs with 2-3 entities per map and call graphs with cycles, every permutation at every dynamic loop execution is explored with at most 2 loop executions deviating from natural order. (3) all permutations of the declarations of 9 four-declaration programs (call cycles, duplicates, per-subroutine goto labels and locals incl. functional subroutines). Oracles: no panic, no fuel exhaustion, identical diagnostic multisets (with locations for 1 and 2, without for 3). non-trivial = non-empty program / more than one order explored / non-identity permutation; distinct = distinct case Round 3: 3 programs whose subroutine scope is the union of 3-6 callers' scopes (map-order family), 51 regex literals that end inside a group / class / quantifier / escape x 8 places a pattern is looked at (totality family); maps with more than 4 keys are iterated in 2n orders (natural, reversed, rotations, reversed rotations), not n!.",
+		Rule: "(1) totality under a fuel budget: every statement/declaration derivation within 2 (quick) / 3 (thorough) deviations, every single-site replacement of an expression atom by each of 10 atom kinds (ill-typed mutants) in every derivation within 1 deviation, special programs, functional subroutines with 0-2 parameters called with 0-3 arguments, and all 12288 include graphs over modules {main, a, b} where each file includes any subset of {a, b, itself, missing} at root level or inside a subroutine; each linted twice (repeat determinism). (2) determinism over Go's randomised map iteration: the instrumented build routes every range-over-map loop of linter and linter/context (found by go/types at build time) through a seam; for 20 programs with 2-3 entities per map and call graphs with cycles, every permutation at every dynamic loop execution is explored with at most 2 loop executions deviating from natural order. (3) all permutations of the declarations of 9 four-declaration programs (call cycles, duplicates, per-subroutine goto labels and locals incl. functional subroutines). Oracles: no panic, no fuel exhaustion, identical diagnostic multisets (with locations for 1 and 2, without for 3). non-trivial = non-empty program / more than one order explored / non-identity permutation; distinct = distinct case Round 3: 3 programs whose subroutine scope is the union of 3-6 callers' scopes (map-order family), 51 regex literals that end inside a group / class / quantifier / escape x 8 places a pattern is looked at (totality family); maps with more than 4 keys are iterated in 2n orders (natural, reversed, rotations, reversed rotations), not n!.",
 		Gen:  gen11,
 		Key: func(c Case) string {
 			ks := make([]string, 0, len(c.Modules))
